@@ -40,6 +40,6 @@ with open(os.path.join(VERIF, 'mutants', 'SEEDED.md'), 'w') as f:
 n = len(rows)
 c = sum(1 for r in rows if r[4].startswith('caught'))
 print(f'{n} seeded changes, {c} caught, '
-      f'{sum(1 for r in rows if "obsolete" in r[4])} obsolete, '
+      f'{sum(1 for r in rows if r[4].startswith("moot"))} moot, '
       f'{sum(1 for r in rows if "not caught" in r[4])} not caught, '
       f'{sum(1 for r in rows if "not run" in r[4])} not run')
